@@ -2,11 +2,13 @@ package hx
 
 import (
 	"errors"
+	"fmt"
 	"sync"
 	"sync/atomic"
 	"time"
 
 	"github.com/nautilus/graphql"
+	"github.com/vektah/gqlparser/v2"
 )
 
 // FaultLog records what the fault injector actually did.
@@ -64,7 +66,12 @@ func InstallFaults(f *Fed, faults []FaultSpec, barrier int) *FaultLog {
 		}
 		s.Fail = func(in *graphql.QueryInput, n int) (interface{}, error, bool) {
 			for _, fs := range mine {
-				if n >= fs.From && n < fs.From+fs.Count {
+				hit := n >= fs.From && n < fs.From+fs.Count
+				if fs.MatchID != "" {
+					idv, has := in.Variables["id"]
+					hit = (fs.MatchID == "root" && !has) || (has && fmt.Sprint(idv) == fs.MatchID)
+				}
+				if hit {
 					fl.mu.Lock()
 					defer fl.mu.Unlock()
 					switch fs.Kind {
@@ -76,6 +83,16 @@ func InstallFaults(f *Fed, faults []FaultSpec, barrier int) *FaultLog {
 						fl.Failures++
 						fl.Errors += 2
 						return nil, graphql.ErrorList{&graphql.Error{Message: "injected-1"}, &graphql.Error{Message: "injected-2"}}, true
+					case "gqlerrors+data":
+						fl.Failures++
+						fl.Errors++
+						// the real answer, accompanied by an error
+						doc, errs := gqlparser.LoadQuery(s.Schema, in.Query)
+						if errs != nil {
+							return nil, errors.New("injected-with-data"), true
+						}
+						data, _ := Exec(s.Schema, s.Store, doc, in.OperationName, in.Variables)
+						return data, graphql.ErrorList{&graphql.Error{Message: "injected-with-data"}}, true
 					case "node-null":
 						fl.Shapes++
 						return map[string]interface{}{"node": nil}, nil, true
